@@ -34,7 +34,7 @@ Lemma unflatten_spellings d sz sh n :
   let r := reverse "unflatten" {| pos := [VInt d; VInts sz]; kw := [] |} sh n in
   reverse "unflatten" {| pos := [VInt d]; kw := [("unflattened_size", VInts sz)] |} sh n = r
   /\ reverse "unflatten" {| pos := []; kw := [("dim", VInt d); ("unflattened_size", VInts sz)] |} sh n = r
-  /\ r = CFlatten (norm d (zlen sh)) (norm d (zlen sh) + zlen sz - 1).
+  /\ r = (if zlen sz =? 1 then CIdentity else CFlatten (norm d (zlen sh)) (norm d (zlen sh) + zlen sz - 1)).
 Proof. repeat split; reflexivity. Qed.
 
 Lemma squeeze_spellings d sh n :
